@@ -49,6 +49,9 @@ def intOrNone (s : Str) : Option (Option Nat) :=
   else none
 
 def bytesUnit : Str := [98, 121, 116, 101, 115]   -- "bytes"
+def sBytesSp : Str := [98, 121, 116, 101, 115, 32]   -- "bytes "
+def sBytesStar : Str := [98, 121, 116, 101, 115, 32, 42, 47]   -- "bytes */"
+def sTextPlain : Str := [116, 101, 120, 116, 47, 112, 108, 97, 105, 110]   -- "text/plain"
 
 /-- `_parse_request_range`: `none` = header ignored; the pair is (start, end) for slicing -/
 def parseRange (h : Str) : Option (Option Int × Option Int) :=
@@ -75,7 +78,7 @@ def decI (i : Int) : Str := if i < 0 then 45 :: decN i.natAbs else decN i.toNat
 def getContentRange (start end_ : Option Int) (total : Int) : Str :=
   let s : Int := match start with | some s => if s = 0 then 0 else s | none => 0
   let e : Int := (match end_ with | some e => if e = 0 then total else e | none => total) - 1
-  ofString "bytes " ++ decI s ++ [45] ++ decI e ++ [47] ++ decI total
+  sBytesSp ++ decI s ++ [45] ++ decI e ++ [47] ++ decI total
 
 /-! ### the range arithmetic of `get` -/
 
@@ -88,21 +91,34 @@ inductive Plan where
 def orElse (x : Option Int) (d : Int) : Int :=
   match x with | some v => if v = 0 then d else v | none => d
 
+/-- `if start is not None and start < 0: start += size; if start < 0: start = 0` -/
+def adjStart (size : Int) : Option Int → Option Int
+  | some s => if s < 0 then (if s + size < 0 then some 0 else some (s + size)) else some s
+  | none => none
+
+/-- the 416 condition: `(start is not None and (start >= size or (end is not None and start >= end))) or end == 0` -/
+def unsatisfiable (size : Int) (start end_ : Option Int) : Prop :=
+  (match start with
+    | some s => s ≥ size ∨ (match end_ with | some e => s ≥ e | none => False)
+    | none => False) ∨ end_ = some 0
+
+instance (size : Int) (start end_ : Option Int) : Decidable (unsatisfiable size start end_) := by
+  unfold unsatisfiable
+  cases start <;> cases end_ <;> infer_instance
+
+/-- `if end is not None and end > size: end = size` -/
+def clampEnd (size : Int) : Option Int → Option Int
+  | some e => if e > size then some size else some e
+  | none => none
+
 def plan (size : Int) (rr : Option (Option Int × Option Int)) : Plan :=
   match rr with
   | none => .ok false none none
   | some (start, end_) =>
-    let start : Option Int := match start with
-      | some s => if s < 0 then (if s + size < 0 then some 0 else some (s + size)) else some s
-      | none => none
-    let c1 : Bool := match start with
-      | some s => decide (s ≥ size) || (match end_ with | some e => decide (s ≥ e) | none => false)
-      | none => false
-    if c1 || end_ == some 0 then .unsat
+    let start := adjStart size start
+    if unsatisfiable size start end_ then .unsat
     else
-      let end_ : Option Int := match end_ with
-        | some e => if e > size then some size else some e
-        | none => none
+      let end_ := clampEnd size end_
       .ok (decide (size ≠ orElse end_ size - orElse start 0)) start end_
 
 /-- the four-way `content_length` computation -/
@@ -201,16 +217,16 @@ structure Resp where
   body : List Nat
   deriving Repr, BEq, DecidableEq
 
-def hAcceptRanges := ofString "Accept-Ranges"
-def hEtag := ofString "Etag"
-def hLastModified := ofString "Last-Modified"
-def hContentType := ofString "Content-Type"
-def hContentRange := ofString "Content-Range"
-def hContentLength := ofString "Content-Length"
+def hAcceptRanges : Str := [65, 99, 99, 101, 112, 116, 45, 82, 97, 110, 103, 101, 115]   -- "Accept-Ranges"
+def hEtag : Str := [69, 116, 97, 103]   -- "Etag"
+def hLastModified : Str := [76, 97, 115, 116, 45, 77, 111, 100, 105, 102, 105, 101, 100]   -- "Last-Modified"
+def hContentType : Str := [67, 111, 110, 116, 101, 110, 116, 45, 84, 121, 112, 101]   -- "Content-Type"
+def hContentRange : Str := [67, 111, 110, 116, 101, 110, 116, 45, 82, 97, 110, 103, 101]   -- "Content-Range"
+def hContentLength : Str := [67, 111, 110, 116, 101, 110, 116, 45, 76, 101, 110, 103, 116, 104]   -- "Content-Length"
 
 /-- `set_headers()` without the Content-Type (which a 304 drops again) -/
 def baseHeaders (f : File) : List (Str × Str) :=
-  [(hAcceptRanges, ofString "bytes"), (hEtag, f.etag), (hLastModified, f.lastModified)]
+  [(hAcceptRanges, bytesUnit), (hEtag, f.etag), (hLastModified, f.lastModified)]
 
 /-- the request's Range header as `get` uses it: an empty value is falsy -/
 def requestRange (req : Req) : Option (Option Int × Option Int) :=
@@ -227,8 +243,8 @@ def respond (f : File) (req : Req) : Resp :=
     match plan size (requestRange req) with
     | .unsat =>
       { status := 416,
-        headers := baseHeaders f ++ [(hContentType, ofString "text/plain"),
-                    (hContentRange, ofString "bytes */" ++ decI size), (hContentLength, decN 0)],
+        headers := baseHeaders f ++ [(hContentType, sTextPlain),
+                    (hContentRange, sBytesStar ++ decI size), (hContentLength, decN 0)],
         body := [] }
     | .ok part start end_ =>
       let hs := baseHeaders f ++ [(hContentType, f.ctype)]
